@@ -76,6 +76,7 @@ type SimNode struct {
 	Trans   *Transport
 	Silent  bool // neither initiates nor answers
 	Down    bool // crashed / not yet started
+	Restarted bool // re-created from its store (pools were lost)
 	Ticks   int
 	FFStep  int // step of the last fast-forward (-1: full history)
 	Has     map[string]bool
@@ -465,7 +466,7 @@ func (c *Cluster) usable(i int) bool {
 // Gossip: node i runs the real pull-push gossip with j.
 func (c *Cluster) Gossip(i, j int, plan *Plan) error {
 	return c.guard(fmt.Sprintf("G(%d,%d%s)", i, j, planStr(plan)), func() error {
-		if !c.usable(i) || c.Nodes[j] == nil {
+		if !c.usable(i) || j < 0 || j >= len(c.Nodes) || c.Nodes[j] == nil {
 			return fmt.Errorf("not usable")
 		}
 		if c.Nodes[i].Node.GetState() != state.Babbling {
@@ -480,7 +481,7 @@ func (c *Cluster) Gossip(i, j int, plan *Plan) error {
 // Pull: node i pulls from j only.
 func (c *Cluster) Pull(i, j int, plan *Plan) error {
 	return c.guard(fmt.Sprintf("P(%d,%d%s)", i, j, planStr(plan)), func() error {
-		if !c.usable(i) || c.Nodes[j] == nil {
+		if !c.usable(i) || j < 0 || j >= len(c.Nodes) || c.Nodes[j] == nil {
 			return fmt.Errorf("not usable")
 		}
 		if c.Nodes[i].Node.GetState() != state.Babbling {
